@@ -20,6 +20,9 @@ pub struct GenOpts {
     pub ties: bool,
     /// allow dead-head sentinels above the planning horizon (clamped by the loader)
     pub sentinels: bool,
+    /// allow a non-zero diagonal of the dead-head matrix (a "turn-around" entry for staying at a
+    /// station; the README does not exclude it). Only used where termination is the question.
+    pub nonzero_diagonal: bool,
 }
 
 const BASE_DAY: i64 = 1_709_510_400; // 2024-03-04T00:00:00
@@ -105,6 +108,15 @@ pub fn gen_instance(rng: &mut Rng, o: &GenOpts) -> (Value, Value) {
     let odd_seconds = rng.chance(1, 10);
     let type_without_routes = n_types >= 2 && rng.chance(1, 12);
 
+    // ids of different kinds of objects live in separate namespaces and may coincide
+    let alias_ids = rng.chance(1, 6);
+    // ids need not be in the order in which the objects are listed (nor sorted): permute the suffixes
+    let mut perm: Vec<usize> = (0..10).collect();
+    if rng.chance(1, 2) {
+        rng.shuffle(&mut perm);
+    }
+    let perm_t = perm.clone();
+    let type_id = move |t: usize| if alias_ids { format!("{}X{}", pfx, perm_t[t % 10]) } else { format!("{}vt{}", pfx, perm_t[t % 10]) };
     // ---- vehicle types ------------------------------------------------------------------
     let mut types = vec![];
     let mut type_caps = vec![];
@@ -121,7 +133,7 @@ pub fn gen_instance(rng: &mut Rng, o: &GenOpts) -> (Value, Value) {
             None
         };
         let mut m = Map::new();
-        m.insert("id".into(), json!(format!("{}vt{}", pfx, t)));
+        m.insert("id".into(), json!(type_id(t)));
         m.insert("capacity".into(), json!(capacity));
         m.insert("seats".into(), json!(seats));
         opt_field(rng, &mut m, "maximalFormationCount", limit);
@@ -130,13 +142,19 @@ pub fn gen_instance(rng: &mut Rng, o: &GenOpts) -> (Value, Value) {
     }
 
     // ---- locations + dead-head matrix -----------------------------------------------------
-    let loc_ids: Vec<String> = (0..n_locs).map(|i| format!("{}L{}", pfx, i)).collect();
+    let loc_ids: Vec<String> = (0..n_locs).map(|i| if alias_ids { format!("{}X{}", pfx, perm[(i + 3) % 10]) } else { format!("{}L{}", pfx, perm[(i + 3) % 10]) }).collect();
     let mut locations = vec![];
     for id in &loc_ids {
         let mut m = Map::new();
         m.insert("id".into(), json!(id));
-        if rng.chance(1, 6) {
-            m.insert("dayLimit".into(), json!(rng.range(1, 9)));
+        match rng.usize(8) {
+            0 => {
+                m.insert("dayLimit".into(), json!(rng.range(1, 9)));
+            }
+            1 => {
+                m.insert("dayLimit".into(), Value::Null);
+            }
+            _ => {}
         }
         locations.push(Value::Object(m));
     }
@@ -184,6 +202,13 @@ pub fn gen_instance(rng: &mut Rng, o: &GenOpts) -> (Value, Value) {
         if rng.chance(1, 2) {
             dd[i][j] = 0;
             dd[j][i] = 0;
+        }
+    }
+    if o.nonzero_diagonal && rng.chance(1, 6) {
+        let i = rng.usize(n_locs);
+        tt[i][i] = *rng.pick(&[60u64, 180, 600]);
+        if rng.chance(1, 2) {
+            dd[i][i] = 1000;
         }
     }
     // the loader clamps durations above the planning horizon: stay well below one day ...
@@ -257,7 +282,7 @@ pub fn gen_instance(rng: &mut Rng, o: &GenOpts) -> (Value, Value) {
             } else {
                 rng.range(5, 120) * 60
             };
-            let dist = if rng.chance(1, 25) { 0 } else { rng.range(1, 60) as u64 * 1000 };
+            let dist = if rng.chance(1, 25) { 0 } else if rng.chance(1, 30) { rng.range(100, 900) as u64 * 1000 } else { rng.range(1, 60) as u64 * 1000 };
             let seg_limit = if limit_mode == 2 || limit_mode == 3 {
                 if rng.chance(4, 5) {
                     Some(rng.range(1, 3) as u64)
@@ -280,12 +305,12 @@ pub fn gen_instance(rng: &mut Rng, o: &GenOpts) -> (Value, Value) {
             segs.push(RSeg { id, dur });
             cur = to;
         }
-        let id = format!("{}r{}", pfx, r);
+        let id = if alias_ids { format!("{}X{}", pfx, r) } else { format!("{}r{}", pfx, r) };
         if segs_json.len() >= 2 && rng.chance(1, 5) {
             // the list order of a route's segments carries no meaning (`order` does)
             segs_json.reverse();
         }
-        routes_json.push(json!({"id": id, "vehicleType": format!("{}vt{}", pfx, vt), "segments": segs_json}));
+        routes_json.push(json!({"id": id, "vehicleType": type_id(vt), "segments": segs_json}));
         routes.push(Route { id, vt, segs });
     }
 
@@ -452,7 +477,7 @@ pub fn gen_instance(rng: &mut Rng, o: &GenOpts) -> (Value, Value) {
                         }
                     };
                     let mut m = Map::new();
-                    m.insert("vehicleType".into(), json!(format!("{}vt{}", pfx, t)));
+                    m.insert("vehicleType".into(), json!(type_id(t)));
                     match cap {
                         Some(c) => {
                             sum_caps += c;
@@ -493,7 +518,7 @@ pub fn gen_instance(rng: &mut Rng, o: &GenOpts) -> (Value, Value) {
                     total = total.max(sum_caps);
                 }
                 ds.push(json!({
-                    "id": format!("{}dep{}", pfx, i),
+                    "id": if alias_ids { format!("{}X{}", pfx, perm[(i + 5) % 10]) } else { format!("{}dep{}", pfx, perm[(i + 5) % 10]) },
                     "location": loc_ids[loc],
                     "capacity": total,
                     "allowedTypes": allowed,
@@ -508,8 +533,14 @@ pub fn gen_instance(rng: &mut Rng, o: &GenOpts) -> (Value, Value) {
     let mut costs = Map::new();
     costs.insert("staff".into(), json!(cost_pick(rng)));
     costs.insert("serviceTrip".into(), json!(cost_pick(rng)));
-    if rng.chance(3, 4) {
-        costs.insert("maintenance".into(), json!(cost_pick(rng)));
+    match rng.usize(8) {
+        0 => {}
+        1 => {
+            costs.insert("maintenance".into(), Value::Null);
+        }
+        _ => {
+            costs.insert("maintenance".into(), json!(cost_pick(rng)));
+        }
     }
     costs.insert("deadHeadTrip".into(), json!(cost_pick(rng)));
     costs.insert("idle".into(), json!(cost_pick(rng)));
@@ -527,8 +558,14 @@ pub fn gen_instance(rng: &mut Rng, o: &GenOpts) -> (Value, Value) {
         .get("forbidDeadHeadTrips")
         .and_then(|x| x.as_bool())
         .unwrap_or(false);
-    if rng.chance(1, 5) {
-        params.insert("dayLimitThreshold".into(), json!(rng.range(0, 600)));
+    match rng.usize(10) {
+        0 | 1 => {
+            params.insert("dayLimitThreshold".into(), json!(rng.range(0, 600)));
+        }
+        2 => {
+            params.insert("dayLimitThreshold".into(), Value::Null);
+        }
+        _ => {}
     }
     params.insert(
         "shunting".into(),
